@@ -346,7 +346,10 @@ namespace trompeloeil {
     {
       for (auto& e : matchers)
       {
-        e.validate_match(s, match_name, loc);
+        if (e.cost() == ~0U)
+        {
+          e.validate_match(s, match_name, loc);
+        }
       }
     }
 
